@@ -29,7 +29,7 @@ Context {T : Type} `{Num T}.
 (* memory layout (c_contiguous, f_contiguous) and "dtype in _BLAS_DTYPES" of each
    tensor object; arbitrary *)
 Variable flg : nat -> bool * bool.
-Variable bdtf : nat -> bool.
+Variable bdtf : nat -> dtinfo.
 (* conversion to a non-floating dtype (truncation); floating dtypes store unchanged *)
 Variable icast : T -> T.
 
